@@ -73,6 +73,12 @@ func loopConfigs(thorough bool, faults bool) []*loop.Config {
 			out = append(out, c2)
 		}
 	}
+	if faults {
+		// one failing scrape (ordinary operation) on top of one fault: the last health a lost shard reported
+		// for its target must not outlive the shard
+		o := loop.Opt{MaxHead: 0, MaxProc: 100, MaxShard: 4, MinShard: 0, IdleSec: 0}
+		out = append(out, &loop.Config{Name: "failed-scrape-then-fault", Opt: o, Targets: ab, Shards: []loop.Seed{{2: ""}, {1: ""}}, BudgetF: 1, BudgetK: 1})
+	}
 	if thorough && !faults {
 		o := loop.Opt{MaxHead: 0, MaxProc: 100, MaxShard: 4, MinShard: 2, IdleSec: 3600}
 		add(false, "min-2/three-targets", o, abc, []loop.Seed{{1: ""}, {2: "", 3: ""}, {}})
